@@ -53,6 +53,8 @@ FIXED = [
  ("C18", "fix: the LP reader leaked three numbers on \"Coefficient without variable\"", "C18|leak|mpq_ILLread_one_constraint>read_constraints>mpq_ILLread_lp", "LP reader: return from the middle of ILLread_constraint_expr"),
  ("C18", "fix: QSexact_verify leaked a basis and dereferenced NULL for a basis of the wrong size", "C18|leak|ILLutil_allocrus>dbl_QSget_basis>QSexact_verify", "QSexact_verify overwrote the caller's basis pointer with a fetched basis (leak; NULL deref for mismatching sizes)"),
  ("C18", "fix: QSopt_pivotin_row/col leaked six numbers when there was nothing to pivot", "C18|leak|mpq_QSopt_pivotin_row", "ILLsimplex_pivotin early returns skipped EGlpNumClearVar"),
+ ("C19", "fix: esolver -b exited with an error whenever the problem had no optimal basis", "C19|valid-file|exit-nonzero", "esolver -b on an unbounded problem exited 1 (no basis to write)"),
+ ("C12", "fix: QSexact_verify's exact fallback judged the double solver's basis, not the given one", "C12|returned|verify-denies", "QSexact_verify(prestep) answered 0 for an exactly optimal basis because the fallback tested the double solver's basis"),
 ]
 OPEN = []
 out = []
